@@ -122,7 +122,10 @@ func runRoundTrip(o opts, out *Output, sig int) {
 		}
 		okSoFar := true
 		for b := 0; b < nb && okSoFar; b++ {
+			// a tenth of the histories start with one or two all-zero batches (typed zeros everywhere)
+			g.Zero = c%10 == 3 && b < 1+c%2
 			data := genAnyN(g, r, sig, 1+r.Intn(7))
+			g.Zero = false
 			big := false
 			if c%40 == 13 && b <= 1 {
 				// sizes far outside what the generator draws: 70 KB names, 2 MB values, 20001 children of one item
